@@ -501,6 +501,15 @@ func (c *Ctx) serHooks(mode serMode) Hooks {
 				}
 			}
 		}
+		// io.ReadFull behind a method of the reader struct (`func (r dumpReader) full(p []byte) (int, error) { return
+		// io.ReadFull(r.src, p) }`): the call is that read, of the buffer handed to it
+		if fn, ok := callee.(*types.Func); ok && name != "io.ReadFull" {
+			if k := c.readFullWrapper(fn); k >= 0 && k < len(call.Args) && k < len(args) {
+				name = "io.ReadFull"
+				call = &ast.CallExpr{Fun: call.Fun, Lparen: call.Lparen, Args: []ast.Expr{call.Args[k], call.Args[k]}, Rparen: call.Rparen}
+				args = []Value{unknownV(), args[k]}
+			}
+		}
 		arg := func(i int) Value {
 			if i < len(args) {
 				return args[i]
@@ -1544,4 +1553,39 @@ func (c *Ctx) serPrim(role string) (*types.Func, *ast.FuncDecl) {
 		}
 	}
 	return nil, nil
+}
+
+// readFullWrapper: fn's body is the single statement `return io.ReadFull(<its reader>, p)` with p one of its
+// parameters; the index of p, or -1.
+func (c *Ctx) readFullWrapper(fn *types.Func) int {
+	if fn == nil || fn.Pkg() == nil || fn.Pkg().Path() != bclPath {
+		return -1
+	}
+	fd := c.funcDecls[fn]
+	if fd == nil || fd.Body == nil || len(fd.Body.List) != 1 {
+		return -1
+	}
+	rs, ok := fd.Body.List[0].(*ast.ReturnStmt)
+	if !ok || len(rs.Results) != 1 {
+		return -1
+	}
+	call, ok := stripParens(rs.Results[0]).(*ast.CallExpr)
+	if !ok || len(call.Args) != 2 {
+		return -1
+	}
+	if cal, ok := c.callee(call).(*types.Func); !ok || qname(cal) != "io.ReadFull" {
+		return -1
+	}
+	k := 0
+	if fd.Type.Params != nil {
+		for _, f := range fd.Type.Params.List {
+			for _, nm := range f.Names {
+				if c.isObj(call.Args[1], c.objOf(nm)) {
+					return k
+				}
+				k++
+			}
+		}
+	}
+	return -1
 }
